@@ -14,7 +14,11 @@
 (*   "only"  - RoundTripOpt.OnlyCachedConn is never read: such a request dials on a miss;       *)
 (*   "timer" - the idle timer of a connection is not re-armed when it fired while only a        *)
 (*             reservation was held, or when writeRequest stopped it and then refused the        *)
-(*             request: the idle connection is never closed for idleness.                       *)
+(*             request: the idle connection is never closed for idleness;                       *)
+(*   "rsv"   - a request that fails before it gets a stream gives its reservation back twice     *)
+(*             (known as ReservationLost from the h2client family, C17);                        *)
+(*   "zombie"- a closed, never used connection stays in the pool for ever when the request that *)
+(*             was given it is cancelled at the same time (nobody calls MarkDead).              *)
 EXTENDS Integers, Sequences, FiniteSets, TLC
 
 CONSTANTS
@@ -26,7 +30,7 @@ CONSTANTS
               \* (noDialClientConnPool, connections arrive through the TLSNextProto upgrade function)
   IdleOn,     \* IdleConnTimeout is configured (2 ticks)
   Limits,     \* SETTINGS_MAX_CONCURRENT_STREAMS values servers may send
-  Repair,     \* subset of {"only", "timer"}
+  Repair,     \* subset of {"only", "timer", "rsv", "zombie"}
   FreeTime,   \* TRUE: time may pass at any moment (model checking); FALSE: only by the clock commands
   Env         \* names of the environment commands enabled in model checking
 
@@ -54,8 +58,6 @@ Auths == << [s |-> "https", h |-> "a",  p |-> "none"],
 Ascii(h)   == IF h = "bu" THEN "bx" ELSE h
 DefPort(s) == IF s = "http" THEN "80" ELSE "443"
 Norm(i)    == LET a == Auths[i] IN <<Ascii(a.h), IF a.p \in {"none", "empty"} THEN DefPort(a.s) ELSE a.p>>
-Keys       == {Norm(i) : i \in AuthIdx}
-CId        == Keys \X (1..NC)
 NoC        == <<<<"-", "-">>, 0>>
 
 VARIABLES
@@ -73,28 +75,32 @@ VARIABLES
 
 vars == <<pconns, pkeys, dialing, addcall, cnt, dial, conn, req, upg, dev, mode>>
 
-NoDial == [st |-> "none", owner |-> 0, err |-> ""]
+(* the pool keys of a run are fixed at its start (the domain of the pool's maps in this model) *)
+Keys == DOMAIN pconns
+CId  == Keys \X (1..NC)
+
+NoDial == [st |-> "none", owner |-> 0, err |-> "", sc |-> FALSE]
 NoConn == [st |-> "none", act |-> 0, rsv |-> 0, lim |-> Inf, ga |-> FALSE, dnr |-> FALSE, clg |-> FALSE,
            cl |-> FALSE, coi |-> FALSE, used |-> FALSE, reu |-> FALSE, fresh |-> FALSE,
            tm |-> 0 - 1, fire |-> FALSE, ut |-> FALSE, utf |-> FALSE, rl |-> "none", ccl |-> FALSE, scl |-> FALSE,
-           pset |-> 0, pga |-> "", gal |-> "", pr |-> 0, shut |-> "", by |-> 0]
+           pset |-> 0, pga |-> "", gal |-> "", pr |-> 0, shut |-> "", sg |-> FALSE, by |-> 0, late |-> 0]
 NewConn(u) == [NoConn EXCEPT !.st = "open", !.fresh = TRUE, !.tm = IF IdleOn THEN 2 ELSE 0 - 1, !.rl = "run", !.by = u]
-NoReq  == [pc |-> "new", a |-> 0, key |-> NoC[1], c |-> NoC, n |-> 0, cx |-> FALSE, ab |-> "", fin |-> FALSE,
+NoReq  == [pc |-> "new", key |-> NoC[1], c |-> NoC, n |-> 0, cx |-> FALSE, ab |-> "", fin |-> FALSE,
            hdr |-> FALSE, kind |-> "", only |-> FALSE, dir |-> FALSE]
-NoUpg  == [pc |-> "new", a |-> 0, key |-> NoC[1], dup |-> 0, used |-> FALSE, c |-> NoC]
+NoUpg  == [pc |-> "new", key |-> NoC[1], dup |-> 0, used |-> FALSE, c |-> NoC]
 
-Init ==
-  /\ pconns  = [k \in Keys |-> <<>>]
-  /\ pkeys   = [c \in CId |-> {}]
-  /\ dialing = [k \in Keys |-> 0]
-  /\ addcall = [k \in Keys |-> 0]
-  /\ cnt     = [k \in Keys |-> 0]
-  /\ dial    = [c \in CId |-> NoDial]
-  /\ conn    = [c \in CId |-> NoConn]
+InitWith(K) ==
+  /\ pconns  = [k \in K |-> <<>>]
+  /\ pkeys   = [c \in K \X (1..NC) |-> {}]
+  /\ dialing = [k \in K |-> 0]
+  /\ addcall = [k \in K |-> 0]
+  /\ cnt     = [k \in K |-> 0]
+  /\ dial    = [c \in K \X (1..NC) |-> NoDial]
+  /\ conn    = [c \in K \X (1..NC) |-> NoConn]
   /\ req     = [r \in Reqs |-> NoReq]
   /\ upg     = [u \in Upgs |-> NoUpg]
   /\ dev     = {}
-  /\ mode \in Modes
+Init == InitWith({Norm(i) : i \in AuthIdx}) /\ mode \in Modes
 
 Range(s)   == {s[j] : j \in 1..Len(s)}
 Pooled(k)  == Range(pconns[k])
@@ -150,12 +156,17 @@ Lookup(r) ==
                    ELSE /\ cnt[k] < NC
                         /\ cnt' = [cnt EXCEPT ![k] = @ + 1]
                         /\ dialing' = [dialing EXCEPT ![k] = cnt[k] + 1]
-                        \* the dial runs with the context of this request: already cancelled => it fails at once
-                        /\ dial' = [dial EXCEPT ![<<k, cnt[k] + 1>>] =
-                                       [st |-> IF q.cx THEN "fail" ELSE "run", owner |-> r, err |-> IF q.cx THEN "ctx" ELSE ""]]
+                        \* the dial runs with the context of this request (see DialCtx)
+                        /\ dial' = [dial EXCEPT ![<<k, cnt[k] + 1>>] = [st |-> "run", owner |-> r, err |-> "", sc |-> FALSE]]
                         /\ req' = [req EXCEPT ![r].pc = "waitdial", ![r].c = <<k, cnt[k] + 1>>]
                         /\ UNCHANGED <<pconns, pkeys, conn, mode>>
   /\ UNCHANGED <<addcall, upg, mode>>
+
+(* the dial function notices that the context it was given (its initiator's) is cancelled *)
+DialCtx(d) ==
+  /\ dial[d].st = "run" /\ req[dial[d].owner].cx
+  /\ dial' = [dial EXCEPT ![d].st = "fail", ![d].err = "ctx"]
+  /\ UNCHANGED <<pconns, pkeys, dialing, addcall, cnt, conn, req, upg, dev, mode>>
 
 (* dialCall.dial after dialClientConn returned: newClientConn, then the p.mu section *)
 DialFinish(d) ==
@@ -163,7 +174,8 @@ DialFinish(d) ==
   /\ dialing' = [dialing EXCEPT ![d[1]] = 0]
   /\ IF dial[d].st = "ok"
      THEN /\ dial' = [dial EXCEPT ![d].st = "done_ok"]
-          /\ conn' = [conn EXCEPT ![d] = NewConn(0)]
+          \* (sc: the server end is closed by the time the connection is handed over)
+          /\ conn' = [conn EXCEPT ![d] = IF dial[d].sc THEN [NewConn(0) EXCEPT !.scl = TRUE, !.rl = "pend"] ELSE NewConn(0)]
           /\ pconns' = [pconns EXCEPT ![d[1]] = Append(@, d)]
           /\ pkeys' = [pkeys EXCEPT ![d] = {d[1]}]
      ELSE /\ dial' = [dial EXCEPT ![d].st = "done_fail"]
@@ -197,18 +209,28 @@ WriteReq(r) ==
   /\ \/ /\ q.cx                                            \* select picked ctx.Done: nothing but the reservation changes
         /\ conn' = [conn EXCEPT ![c] = Rearm([x EXCEPT !.rsv = rsv1])]
         /\ req' = [req EXCEPT ![r] = Ret([q EXCEPT !.c = NoC], "canceled")]
+        /\ UNCHANGED dev
      \/ IF x.cl /\ ~x.used /\ rsv1 = 0
-        THEN \* errClientConnNotEstablished: not retried; roundTripViaPool stops the timer and marks the conn dead
+        THEN \* errClientConnNotEstablished: not retried; roundTripViaPool stops the timer and marks the conn dead.
+             \* writeRequest has already stopped cc.idleTimer - which by now is the 5 s MarkDead timer - so when a
+             \* cancelled context wins the race for RoundTrip's result nobody removes the connection from the pool.
              /\ conn' = [conn EXCEPT ![c] = [x EXCEPT !.rsv = rsv1, !.tm = 0 - 1, !.ut = FALSE]]
-             /\ req' = [req EXCEPT ![r] = IF q.dir THEN Ret([q EXCEPT !.c = NoC], "notest") ELSE [q EXCEPT !.pc = "markdead"]]
+             /\ \/ req' = [req EXCEPT ![r] = IF q.dir /\ "zombie" \notin Repair THEN Ret([q EXCEPT !.c = NoC], "notest")
+                                                ELSE [q EXCEPT !.pc = "markdead"]]
+                \/ /\ q.cx /\ ~q.dir /\ "zombie" \notin Repair
+                   /\ req' = [req EXCEPT ![r] = Ret([q EXCEPT !.c = NoC], "canceled")]
+             /\ UNCHANGED dev
         ELSE IF x.cl \/ ~CanTakeW(x, rsv1)
-        THEN \* errClientConnUnusable: retried on another connection
-             /\ conn' = [conn EXCEPT ![c] = Rearm([x EXCEPT !.rsv = rsv1, !.tm = 0 - 1])]
+        THEN \* errClientConnUnusable: retried on another connection.  The pinned code gives the reservation back
+             \* twice (writeRequest and cleanupWriteRequest), i.e. it also takes one that belongs to somebody else.
+             /\ conn' = [conn EXCEPT ![c] = Rearm([x EXCEPT !.rsv = IF "rsv" \in Repair THEN rsv1 ELSE Dec(rsv1), !.tm = 0 - 1])]
              /\ req' = [req EXCEPT ![r] = RetryRec(q)]
+             /\ dev' = IF "rsv" \notin Repair /\ rsv1 > 0 THEN dev \cup {"ReservationLost"} ELSE dev
         ELSE /\ conn' = [conn EXCEPT ![c] = [x EXCEPT !.rsv = rsv1, !.tm = 0 - 1, !.act = @ + 1, !.used = TRUE, !.fresh = TRUE]]
              /\ req' = [req EXCEPT ![r] = [q EXCEPT !.pc = "sent", !.hdr = FALSE, !.fin = FALSE,
                                                     !.ab = IF q.cx THEN "canceled" ELSE ""]]
-  /\ UNCHANGED <<pconns, pkeys, dialing, addcall, cnt, dial, upg, dev, mode>>
+             /\ UNCHANGED dev
+  /\ UNCHANGED <<pconns, pkeys, dialing, addcall, cnt, dial, upg, mode>>
 
 (* roundTripViaPool after errClientConnNotEstablished: pool.MarkDead(cc) *)
 MarkDeadReq(r) ==
@@ -237,7 +259,8 @@ Forget(r) ==
   /\ req' = [req EXCEPT ![r] =
         CASE q.ab = ""         -> Ret([q EXCEPT !.c = NoC], "ok")
           [] q.ab = "canceled" -> Ret([q EXCEPT !.c = NoC], "canceled")
-          [] q.ab \in {"goaway", "refused"} -> RetryRec(q)
+          [] q.ab \in {"goaway", "refused"} ->
+               IF q.dir THEN Ret([q EXCEPT !.c = NoC], IF q.ab = "goaway" THEN "gotgoaway" ELSE "rst") ELSE RetryRec(q)
           [] OTHER             -> Ret([q EXCEPT !.c = NoC], "connerr")]
   /\ UNCHANGED <<pconns, pkeys, dialing, addcall, cnt, dial, upg, dev, mode>>
 
@@ -310,11 +333,27 @@ UnusedFire(c) ==
   /\ conn' = [conn EXCEPT ![c].utf = FALSE]
   /\ UNCHANGED <<dialing, addcall, cnt, dial, req, upg, dev, mode>>
 
-(* Shutdown's waiting goroutine: no stream left (reservations do not count) or closed *)
+(* ClientConn.Shutdown runs in the caller's goroutine: sendGoAway (closing; the GOAWAY write fails on a dead conn) *)
+ShutBegin(c) ==
+  LET x == conn[c] IN
+  /\ x.shut = "start"
+  /\ conn' = [conn EXCEPT ![c] = [x EXCEPT !.clg = TRUE, !.shut = IF x.ccl \/ x.scl THEN "err" ELSE "wait"]]
+  /\ UNCHANGED <<pconns, pkeys, dialing, addcall, cnt, dial, req, upg, dev, mode>>
+(* its helper goroutine: no stream left (reservations do not count) or closed => closed; done *)
+ShutG(c) ==
+  LET x == conn[c] IN
+  /\ x.shut \in {"wait", "cx"} /\ ~x.sg /\ (x.act = 0 \/ x.cl)
+  /\ conn' = [conn EXCEPT ![c] = [x EXCEPT !.cl = TRUE, !.sg = TRUE]]
+  /\ UNCHANGED <<pconns, pkeys, dialing, addcall, cnt, dial, req, upg, dev, mode>>
+(* the select in Shutdown: done => closeConn, nil; ctx.Done => ctx.Err() (both ready: either) *)
 ShutDone(c) ==
   LET x == conn[c] IN
-  /\ x.shut = "wait" /\ (x.act = 0 \/ x.cl)
-  /\ conn' = [conn EXCEPT ![c] = Closed([x EXCEPT !.cl = TRUE, !.shut = "nil"])]
+  /\ x.shut \in {"wait", "cx"} /\ x.sg
+  /\ conn' = [conn EXCEPT ![c] = Closed([x EXCEPT !.shut = "nil"])]
+  /\ UNCHANGED <<pconns, pkeys, dialing, addcall, cnt, dial, req, upg, dev, mode>>
+ShutCtx(c) ==
+  /\ conn[c].shut = "cx"
+  /\ conn' = [conn EXCEPT ![c].shut = "ctx"]
   /\ UNCHANGED <<pconns, pkeys, dialing, addcall, cnt, dial, req, upg, dev, mode>>
 
 (* --------------------------------------------------------------- upgrades: addConnIfNeeded *)
@@ -352,10 +391,13 @@ URet(u) ==
   /\ upg' = [upg EXCEPT ![u].pc = "ret", ![u].used = (upg[u].dup = 0)]
   /\ UNCHANGED <<pconns, pkeys, dialing, addcall, cnt, dial, conn, req, dev, mode>>
 
+(* the dial / connection ids handed out so far *)
+Live == UNION {{<<k, i>> : i \in 1..cnt[k]} : k \in Keys}
+
 Internal ==
   \/ \E r \in Reqs : Lookup(r) \/ PostDial(r) \/ WriteReq(r) \/ MarkDeadReq(r) \/ WriteHdr(r) \/ Forget(r)
-  \/ \E d \in CId : DialFinish(d) \/ PingAck(d) \/ ApplySettings(d) \/ GAMarkDead(d) \/ GASet(d) \/ RLCleanup(d)
-                    \/ RLFinish(d) \/ IdleFire(d) \/ UnusedFire(d) \/ ShutDone(d)
+  \/ \E d \in Live : DialCtx(d) \/ DialFinish(d) \/ PingAck(d) \/ ApplySettings(d) \/ GAMarkDead(d) \/ GASet(d) \/ RLCleanup(d)
+                    \/ RLFinish(d) \/ IdleFire(d) \/ UnusedFire(d) \/ ShutBegin(d) \/ ShutG(d) \/ ShutDone(d) \/ ShutCtx(d)
   \/ \E u \in Upgs : UCheck(u) \/ URet(u)
   \/ \E k \in Keys : URun(k)
 
@@ -365,11 +407,13 @@ Quiescent ==
        /\ req[r].pc \notin {"lookup", "got", "markdead"}
        /\ req[r].pc = "waitdial" => dial[req[r].c].st \notin {"done_ok", "done_fail"}
        /\ req[r].pc = "sent" => req[r].hdr /\ req[r].ab = "" /\ ~req[r].fin
-  /\ \A d \in CId :
+  /\ \A d \in Live :
        /\ dial[d].st \notin {"ok", "fail"}
+       /\ ~(dial[d].st = "run" /\ req[dial[d].owner].cx)
        /\ conn[d].pr = 0 /\ conn[d].pset = 0 /\ conn[d].pga = "" /\ conn[d].rl \notin {"pend", "fin", "md"}
        /\ ~conn[d].fire /\ ~conn[d].utf
-       /\ ~(conn[d].shut = "wait" /\ (conn[d].act = 0 \/ conn[d].cl))
+       /\ conn[d].shut \notin {"start", "cx"}
+       /\ ~(conn[d].shut = "wait" /\ (conn[d].sg \/ conn[d].act = 0 \/ conn[d].cl))
   /\ \A u \in Upgs : upg[u].pc \notin {"check", "wait"}
   /\ \A k \in Keys : addcall[k] = 0
 
@@ -381,8 +425,8 @@ Serving(c) == conn[c].st = "open" /\ conn[c].rl = "run" /\ ~conn[c].scl /\ ~conn
 
 (* Transport.RoundTripOpt(req, {OnlyCachedConn: only}) with authority spelling a *)
 Start(r, a, only) ==
-  /\ NextReq(r) /\ a \in AuthIdx
-  /\ req' = [req EXCEPT ![r] = [NoReq EXCEPT !.pc = "lookup", !.a = a, !.key = Norm(a), !.only = only]]
+  /\ NextReq(r) /\ a \in DOMAIN Auths /\ Norm(a) \in Keys
+  /\ req' = [req EXCEPT ![r] = [NoReq EXCEPT !.pc = "lookup", !.key = Norm(a), !.only = only]]
   /\ UNCHANGED <<dial, conn, upg, Others>>
 
 (* a caller of the ClientConn API: cc.ReserveNewRequest() ... *)
@@ -409,12 +453,11 @@ Cancel(r) ==
         IF q.pc = "backoff" THEN Ret([q EXCEPT !.cx = TRUE], "canceled")
         ELSE IF q.pc = "sent" /\ q.ab = "" /\ ~q.fin THEN [q EXCEPT !.cx = TRUE, !.ab = "canceled"]
         ELSE [q EXCEPT !.cx = TRUE]]
-  /\ dial' = [d \in CId |-> IF dial[d].st = "run" /\ dial[d].owner = r
-                            THEN [dial[d] EXCEPT !.st = "fail", !.err = "ctx"] ELSE dial[d]]
-  /\ UNCHANGED <<conn, upg, Others>>
+  /\ UNCHANGED <<dial, conn, upg, Others>>
 
 (* the dial function returns *)
 DialOk(d)   == dial[d].st = "run" /\ dial' = [dial EXCEPT ![d].st = "ok"] /\ UNCHANGED <<conn, req, upg, Others>>
+DialOkClosed(d) == dial[d].st = "run" /\ dial' = [dial EXCEPT ![d].st = "ok", ![d].sc = TRUE] /\ UNCHANGED <<conn, req, upg, Others>>
 DialFail(d) == dial[d].st = "run" /\ dial' = [dial EXCEPT ![d].st = "fail", ![d].err = "dialerr"]
                /\ UNCHANGED <<conn, req, upg, Others>>
 
@@ -435,26 +478,26 @@ CloseIdle ==
   /\ conn' = [c \in CId |-> IF pkeys[c] # {} THEN CloseIfIdleRec(conn[c]) ELSE conn[c]]
   /\ UNCHANGED <<dial, req, upg, Others>>
 
-(* ClientConn.Shutdown: GOAWAY is written, closing; then it waits *)
+(* go cc.Shutdown(ctx) *)
 ShutStart(c) ==
-  /\ Serving(c) /\ conn[c].shut = "" /\ ~conn[c].cl
-  /\ conn' = [conn EXCEPT ![c].clg = TRUE, ![c].shut = "wait"]
+  /\ conn[c].st = "open" /\ conn[c].shut = ""
+  /\ conn' = [conn EXCEPT ![c].shut = "start"]
   /\ UNCHANGED <<dial, req, upg, Others>>
 ShutCancel(c) ==
   /\ conn[c].shut = "wait"
-  /\ conn' = [conn EXCEPT ![c].shut = "ctx"]
+  /\ conn' = [conn EXCEPT ![c].shut = "cx"]
   /\ UNCHANGED <<dial, req, upg, Others>>
 
 (* ClientConn.Close *)
 CloseCmd(c) ==
-  /\ conn[c].st = "open" /\ ~conn[c].cl
+  /\ conn[c].st = "open"
   /\ conn' = [conn EXCEPT ![c] = Closed([@ EXCEPT !.cl = TRUE])]
   /\ req' = [r \in Reqs |->
         IF req[r].pc = "sent" /\ req[r].c = c /\ req[r].ab = "" /\ ~req[r].fin
         THEN [req[r] EXCEPT !.ab = "forced"] ELSE req[r]]
   /\ UNCHANGED <<dial, upg, Others>>
 
-SetDNR(c) == conn[c].st = "open" /\ ~conn[c].dnr /\ conn' = [conn EXCEPT ![c].dnr = TRUE] /\ UNCHANGED <<dial, req, upg, Others>>
+SetDNR(c) == conn[c].st = "open" /\ conn' = [conn EXCEPT ![c].dnr = TRUE] /\ UNCHANGED <<dial, req, upg, Others>>
 
 (* ClientConnPool.MarkDead called from outside *)
 MarkDeadCmd(c) ==
@@ -464,8 +507,8 @@ MarkDeadCmd(c) ==
 
 (* net/http hands a fresh connection for authority spelling a to the TLSNextProto upgrade function *)
 Upgrade(u, a) ==
-  /\ mode = "nodial" /\ NextUpg(u) /\ a \in AuthIdx
-  /\ upg' = [upg EXCEPT ![u] = [NoUpg EXCEPT !.pc = "check", !.a = a, !.key = Norm(a)]]
+  /\ mode = "nodial" /\ NextUpg(u) /\ a \in DOMAIN Auths /\ Norm(a) \in Keys
+  /\ upg' = [upg EXCEPT ![u] = [NoUpg EXCEPT !.pc = "check", !.key = Norm(a)]]
   /\ UNCHANGED <<dial, conn, req, Others>>
 
 (* ------------------------------------------------------------------------------------ time *)
@@ -484,8 +527,11 @@ Wake2 ==
   /\ UNCHANGED <<dial, upg, Others>>
 Ticked(x) == IF x.tm > 1 THEN [x EXCEPT !.tm = @ - 1]
              ELSE IF x.tm = 1 THEN [x EXCEPT !.tm = 0 - 1, !.fire = TRUE] ELSE x
+(* late: for how many tick boundaries in a row an open idle connection has had no idle timer (IdleConnTimeout set) *)
+Late(x)   == [x EXCEPT !.late = IF IdleOn /\ x.st = "open" /\ ~x.cl /\ x.act = 0 /\ x.rsv = 0 /\ x.tm < 0 /\ ~x.fire
+                                THEN (IF @ < 2 THEN @ + 1 ELSE @) ELSE 0]
 Tick ==
-  /\ conn' = [c \in CId |-> Unfresh(Ticked(conn[c]))]
+  /\ conn' = [c \in CId |-> Unfresh(Ticked(Late(conn[c])))]
   /\ UNCHANGED <<dial, req, upg, Others>>
 
 (* model checking: time passes for one timer at a time, at any moment *)
@@ -502,15 +548,16 @@ Cmd ==
   \/ On("reserve")  /\ \E r \in Reqs, b \in BOOLEAN : UserGo(r, b)
   \/ On("cancel")   /\ \E r \in Reqs : Cancel(r)
   \/ On("dial")     /\ \E d \in CId : DialOk(d) \/ DialFail(d)
+  \/ On("dialc")    /\ \E d \in CId : DialOkClosed(d)
   \/ On("resp")     /\ \E r \in Reqs : Resp(r)
   \/ On("refuse")   /\ \E r \in Reqs : Refuse(r)
   \/ On("settings") /\ \E c \in CId, m \in Limits : m # conn[c].lim /\ Settings(c, m)
   \/ On("goaway")   /\ \E c \in CId, last \in {"all", "none"} : GoAway(c, last)
   \/ On("sclose")   /\ \E c \in CId : SrvClose(c)
   \/ On("closeidle") /\ (\E c \in CId : pkeys[c] # {}) /\ CloseIdle
-  \/ On("shutdown") /\ \E c \in CId : ShutStart(c) \/ ShutCancel(c)
-  \/ On("close")    /\ \E c \in CId : CloseCmd(c)
-  \/ On("dnr")      /\ \E c \in CId : SetDNR(c)
+  \/ On("shutdown") /\ \E c \in CId : (Serving(c) /\ ~conn[c].cl /\ ShutStart(c)) \/ ShutCancel(c)
+  \/ On("close")    /\ \E c \in CId : ~conn[c].cl /\ CloseCmd(c)
+  \/ On("dnr")      /\ \E c \in CId : ~conn[c].dnr /\ SetDNR(c)
   \/ On("markdead") /\ \E c \in CId : pkeys[c] # {} /\ MarkDeadCmd(c)
   \/ On("upgrade")  /\ \E u \in Upgs, a \in AuthIdx : Auths[a].s = "http" /\ Upgrade(u, a)
 
@@ -577,9 +624,12 @@ IdleTimeoutOnlyWhenIdle ==
 (* X12: with IdleConnTimeout an open idle connection always has its timer running (documented; needs Repair "timer") *)
 TimerArmedWhenIdle ==
   ("timer" \in Repair /\ IdleOn) => \A c \in CId : IdleOpen(c) => conn[c].tm > 0 \/ conn[c].fire
+(* the same without the Repair guard: fails for the pinned code (MC_bad_timer.cfg) *)
+IdleConnAlwaysTimed ==
+  (IdleOn /\ Quiescent) => \A c \in CId : IdleOpen(c) => conn[c].tm > 0 \/ conn[c].fire
 (* X12: Shutdown closes only when no stream is left *)
 ShutdownWaits ==
-  [][\A c \in CId : conn'[c].shut = "nil" /\ conn[c].shut = "wait" => conn[c].act = 0 \/ conn[c].cl]_vars
+  [][\A c \in CId : conn'[c].sg /\ ~conn[c].sg => conn[c].act = 0 \/ conn[c].cl]_vars
 
 (* liveness at quiescence: nobody waits for a dial that is over, nothing is half done *)
 NoStrandedWaiter ==
